@@ -25,7 +25,7 @@ ASSUMPTIONS = ["TEMPO inputs are conditioned (D <= 3.5) and size-coupled as in D
 @st.composite
 def s_case(draw, tier):
     d = draw(st.integers(2, 4))
-    p = draw(tempogen.params_spec(d, tier, n_min=2, eps=[1e-7]))
+    p = draw(tempogen.params_spec(d, tier, n_min=2, eps=[1e-7], long_runs=True))
     return {"d": d, "bath": draw(tempogen.bath_spec(d, distinct_if_rotated=False)),
             "sys": draw(sysgen.sys_spec(d)), "rho0": draw(gens.dm_spec(d)), "par": p,
             "eps2": draw(st.sampled_from([1e-8, 1e-9])), "eps1": draw(st.sampled_from([1e-6, 1e-7])),
